@@ -10,7 +10,7 @@ import (
 )
 
 type Case struct {
-	Kind   string      `json:"kind"` // seg | split | merged | buckets
+	Kind   string      `json:"kind"` // seg | split | merged | buckets | pred | dedupe
 	Size   uint64      `json:"size,omitempty"`
 	Init   uint64      `json:"init,omitempty"`
 	End    uint64      `json:"end,omitempty"`
@@ -118,14 +118,14 @@ func evalSeg(c Case) (*core.Fail, bool) {
 		// index functions designate the segment containing the block
 		if b >= init && b < end {
 			r := s.Range(s.IndexForStartBlock(b))
-			if r == nil || !r.Contains(b) {
+			if r == nil || !(b >= r.StartBlock && b < r.ExclusiveEndBlock) {
 				return core.Failf("seg:index-for-start", "size=%d init=%d end=%d block %d -> idx %d -> %s", size, init, end, b, s.IndexForStartBlock(b), r), false
 			}
 		}
 		// an exclusive end block e (init < e <= end) designates the segment containing e-1
 		if b > init && b <= end {
 			r := s.Range(s.IndexForEndBlock(b))
-			if r == nil || !r.Contains(b-1) {
+			if r == nil || !(b-1 >= r.StartBlock && b-1 < r.ExclusiveEndBlock) {
 				return core.Failf("seg:index-for-end", "size=%d init=%d end=%d endblock %d -> idx %d -> %s", size, init, end, b, s.IndexForEndBlock(b), r), false
 			}
 		}
@@ -170,7 +170,7 @@ func evalSplit(c Case) (*core.Fail, bool) {
 		if i > 0 && out[i-1].ExclusiveEndBlock != ch.StartBlock {
 			return core.Failf("split:order", "[%d,%d) chunk %d: %v", c.Init, c.End, c.Size, block.Ranges(out)), false
 		}
-		if ch.Len() > c.Size {
+		if ch.ExclusiveEndBlock-ch.StartBlock > c.Size {
 			return core.Failf("split:chunk-too-big", "[%d,%d) chunk %d: %v", c.Init, c.End, c.Size, block.Ranges(out)), false
 		}
 	}
@@ -220,11 +220,11 @@ func evalMerged(c Case) (*core.Fail, bool) {
 			// a bucket made of >1 input must not exceed the max
 			single := false
 			for _, i := range in {
-				if i.Equals(o) {
+				if i.StartBlock == o.StartBlock && i.ExclusiveEndBlock == o.ExclusiveEndBlock {
 					single = true
 				}
 			}
-			if !single && o.Size() > c.Size {
+			if !single && o.ExclusiveEndBlock-o.StartBlock > c.Size {
 				return core.Failf("buckets:too-big", "%v max %d -> %v", in, c.Size, out), false
 			}
 		}
@@ -232,8 +232,93 @@ func evalMerged(c Case) (*core.Fail, bool) {
 	return nil, adj >= 1 && len(in) >= 3
 }
 
+// evalPred: the predicates of one range [Init,End) (End may equal Init: the empty range) against plain arithmetic, for
+// every block 0..End+2, and Equals / Ranges.Contains against every range over the same span.
+func evalPred(c Case) (*core.Fail, bool) {
+	a, b := c.Init, c.End
+	r := block.NewRange(a, b)
+	if r.Size() != b-a || r.Len() != b-a || r.IsEmpty() != (a == b) {
+		return core.Failf("pred:size", "[%d,%d) size=%d len=%d empty=%v", a, b, r.Size(), r.Len(), r.IsEmpty()), false
+	}
+	for x := uint64(0); x <= b+2; x++ {
+		in := x >= a && x < b
+		if r.Contains(x) != in || r.IsOutOfBounds(x) != !in || r.IsBelow(x) != (x < a) {
+			return core.Failf("pred:contains", "[%d,%d) block %d contains=%v out-of-bounds=%v below=%v", a, b, x, r.Contains(x), r.IsOutOfBounds(x), r.IsBelow(x)), false
+		}
+		if r.IsAbove(x) && x <= b {
+			return core.Failf("pred:above", "[%d,%d) block %d reported above the range", a, b, x), false
+		}
+	}
+	list := block.Ranges{block.NewRange(a, b), block.NewRange(b, b+1)}
+	for o1 := uint64(0); o1 <= b+1; o1++ {
+		for o2 := o1; o2 <= b+2; o2++ {
+			o := block.NewRange(o1, o2)
+			if r.Equals(o) != (o1 == a && o2 == b) {
+				return core.Failf("pred:equals", "[%d,%d) equals [%d,%d) = %v", a, b, o1, o2, r.Equals(o)), false
+			}
+			if list.Contains(o) != ((o1 == a && o2 == b) || (o1 == b && o2 == b+1)) {
+				return core.Failf("pred:list-contains", "%v contains [%d,%d) = %v", list, o1, o2, list.Contains(o)), false
+			}
+		}
+	}
+	return nil, a > 0 && b > a+1
+}
+
+// evalDedupe: Ranges is a sorted disjoint list; every rearrangement of it with duplicates (reversed, rotated, doubled,
+// interleaved with itself) must come back from SortAndDedupe as the list itself, and SortAndDedupe().Merged() (what the
+// scheduler reports as processed ranges) must cover exactly the same blocks.
+func evalDedupe(c Case) (*core.Fail, bool) {
+	var base block.Ranges
+	for _, p := range c.Ranges {
+		base = append(base, block.NewRange(p[0], p[1]))
+	}
+	want, _ := coverSet(base)
+	n := len(base)
+	var arrangements []block.Ranges
+	rev := make(block.Ranges, 0, n)
+	for i := n - 1; i >= 0; i-- {
+		rev = append(rev, block.NewRange(base[i].StartBlock, base[i].ExclusiveEndBlock))
+	}
+	arrangements = append(arrangements, rev)
+	for k := 0; k < n; k++ {
+		rot := make(block.Ranges, 0, 2*n)
+		for i := 0; i < n; i++ {
+			x := base[(i+k)%n]
+			rot = append(rot, block.NewRange(x.StartBlock, x.ExclusiveEndBlock))
+		}
+		arrangements = append(arrangements, rot)
+		dbl := append(append(block.Ranges{}, rot...), rev...)
+		arrangements = append(arrangements, dbl)
+	}
+	for _, in := range arrangements {
+		out := in.SortAndDedupe()
+		if len(out) != n {
+			return core.Failf("dedupe:length", "%v -> %v want %v", in, out, base), false
+		}
+		for i := range out {
+			if out[i] == nil || out[i].StartBlock != base[i].StartBlock || out[i].ExclusiveEndBlock != base[i].ExclusiveEndBlock {
+				return core.Failf("dedupe:order", "%v -> %v want %v", in, out, base), false
+			}
+		}
+		got, err := coverSet(out.Merged())
+		if err != nil || len(got) != len(want) {
+			return core.Failf("dedupe:merged-cover", "%v -> %v", in, out.Merged()), false
+		}
+		for b, k := range want {
+			if got[b] != k {
+				return core.Failf("dedupe:merged-cover", "%v -> %v (block %d)", in, out.Merged(), b), false
+			}
+		}
+	}
+	return nil, n >= 3
+}
+
 func Eval(c Case) (*core.Fail, bool) {
 	switch c.Kind {
+	case "pred":
+		return evalPred(c)
+	case "dedupe":
+		return evalDedupe(c)
 	case "seg":
 		return evalSeg(c)
 	case "split":
@@ -330,6 +415,29 @@ func Run(ctx *core.Ctx) int {
 		if !ok {
 			return
 		}
+		for a := uint64(0); a <= 40; a++ {
+			for b := a; b <= 48; b++ {
+				counts["pred"]++
+				if !emit(Case{Kind: "pred", Init: a, End: b}) {
+					return
+				}
+			}
+		}
+		ok = genLists(9, 9, 0, nil, func(l [][2]uint64) bool {
+			counts["dedupe"]++
+			return emit(Case{Kind: "dedupe", Ranges: l})
+		})
+		if !ok {
+			return
+		}
+		// two-digit bounds: the order must be numeric, not the order of the printed form
+		ok = genLists(13, 3, 7, nil, func(l [][2]uint64) bool {
+			counts["dedupe"]++
+			return emit(Case{Kind: "dedupe", Ranges: l})
+		})
+		if !ok {
+			return
+		}
 		for _, mb := range []uint64{1, 2, 3, 4, 7} {
 			genLists(8, 8, 0, nil, func(l [][2]uint64) bool {
 				counts["buckets"]++
@@ -344,7 +452,7 @@ func Run(ctx *core.Ctx) int {
 	ctx.Cov["distinct_nontrivial"] = st.NonTrivial
 	ctx.Cov["exhaustive"] = true
 	ctx.Cov["by_kind"] = counts
-	ctx.Cov["rule"] = fmt.Sprintf("every (size 1..%d, initial 0..%d, end initial+1..%d) with every index first-2..last+2 and every block 0..end+2, built directly and derived through WithInitialBlock / WithExclusiveEndBlock from a neighbouring bound, the segment boundaries and one segment away; Range.Split for all 0<=a<b<=64 x chunk 1..%d; Ranges.Merged for every sorted disjoint list over 0..%d and every list of <=%d ranges over 0..%d; MergedBuckets over 0..8 x max {1,2,3,4,7}. Non-trivial: >=2 segments/chunks with an unaligned end, or >=3 ranges with an adjacent pair. Cases are distinct by construction of the enumeration.", maxSize, maxInit, maxEnd, maxSize, listMaxA, listLenB, listMaxB)
+	ctx.Cov["rule"] = fmt.Sprintf("every (size 1..%d, initial 0..%d, end initial+1..%d) with every index first-2..last+2 and every block 0..end+2, built directly and derived through WithInitialBlock / WithExclusiveEndBlock from a neighbouring bound, the segment boundaries and one segment away; Range.Split for all 0<=a<b<=64 x chunk 1..%d; Ranges.Merged for every sorted disjoint list over 0..%d and every list of <=%d ranges over 0..%d; MergedBuckets over 0..8 x max {1,2,3,4,7}; Range predicates (Contains, IsOutOfBounds, IsBelow, IsAbove, Size, Len, IsEmpty, Equals, Ranges.Contains) for every 0<=a<=b<=48 x every block; SortAndDedupe (then Merged) over every rearrangement-with-duplicates (reversal, all rotations, doubled) of every sorted disjoint list over 0..9 and of <=3 ranges over 7..13. Non-trivial: >=2 segments/chunks with an unaligned end, or >=3 ranges with an adjacent pair. Cases are distinct by construction of the enumeration.", maxSize, maxInit, maxEnd, maxSize, listMaxA, listLenB, listMaxB)
 	ctx.Assume = []string{"reference is the set-cover definition of tiling written in the harness", "uint64 arithmetic far from overflow (blocks < 200)"}
 	return ctx.Finish(core.JSONRecheck(ctx.Prop, Eval))
 }
